@@ -364,6 +364,56 @@ pub fn run_case(case: &mut Case) {
                     case.rep.count("stderr-text-differs(informational)");
                 }
             }
+            // the same two orders with one argument written `--name=` (an empty value attached):
+            // still one occurrence, wherever it stands
+            if pi == 0 && !invalid {
+                let empty_eq = |line: &Line, units: &[U], want: &[u8]| -> Option<Vec<Vec<u8>>> {
+                    for (ix, o) in line.origin.iter().enumerate() {
+                        if o.role != Role::ArgName {
+                            continue;
+                        }
+                        if let UKind::Arg { value, names, .. } = &units[o.unit].kind {
+                            if value.as_slice() == want && ix + 1 < line.argv.len() {
+                                let mut v = line.argv.clone();
+                                v[ix] = match (names.longs.first(), names.shorts.first()) {
+                                    (Some(l), _) => format!("--{}=", l).into_bytes(),
+                                    (None, Some(c)) => format!("-{}=", c).into_bytes(),
+                                    _ => return None,
+                                };
+                                v.remove(ix + 1);
+                                return Some(v);
+                            }
+                        }
+                    }
+                    None
+                };
+                let pick = base.iter().find_map(|u| match &u.kind {
+                    UKind::Arg { value, adjacent_only: false, .. } => Some(value.clone()),
+                    _ => None,
+                });
+                if let Some(want) = pick {
+                    if let (Some(b2), Some(p2)) =
+                        (empty_eq(&bline, &base, &want), empty_eq(&pline, &perm, &want))
+                    {
+                        let (o1, _) = b.run(case, &b2, "empty-value-attached");
+                        let (o2, _) = b.run(case, &p2, "empty-value-attached:permuted");
+                        case.rep.count("pairs-with-an-empty-attached-value");
+                        let abnormal =
+                            |o: &Outcome| matches!(o, Outcome::Panic(_) | Outcome::FuelExhausted);
+                        if !same(&o1, &o2) && !abnormal(&o1) && !abnormal(&o2) {
+                            case.rep.violation(
+                                &format!("permutation:empty-attached-value:{}->{}", o1.class(), o2.class()),
+                                "permutation",
+                                case.index,
+                                case_json(&b.spec, &p2)
+                                    .set("canonical_argv", show_argv(&b2))
+                                    .set("canonical_outcome", o1.show())
+                                    .set("permuted_outcome", o2.show()),
+                            );
+                        }
+                    }
+                }
+            }
             if !same(&o_base, &o_perm) {
                 let sig = format!(
                     "permutation:{}->{}{}",
